@@ -64,7 +64,8 @@ def ph_out(fn, text):
     try:
         v = fn(text)
     except Exception as e:
-        return {'t': 'exc:' + type(e).__name__, 'w': 0, 'micro': 0}
+        # "raises ValueError, nothing else": a subclass of ValueError is a ValueError
+        return {'t': 'exc:' + ('ValueError' if isinstance(e, ValueError) else type(e).__name__), 'w': 0, 'micro': 0}
     if isinstance(v, bool) or not isinstance(v, (int, float)):
         return {'t': 'other:' + type(v).__name__, 'w': 0, 'micro': 0}
     if isinstance(v, float) and (v != v or v in (float('inf'), float('-inf'))):
